@@ -58,7 +58,14 @@ async fn recognize(stream: &mut TcpStream) -> Result<Proxy, anyhow::Error> {
         Ok(Proxy::Socks5)
     } else {
         let mut buf = [0; 1024];
-        let len = stream.peek(&mut buf).await?;
+        // the request line may arrive in several segments: look again until it is complete (the caller bounds the wait)
+        let len = loop {
+            let len = stream.peek(&mut buf).await?;
+            if len == 0 || len == buf.len() || buf[..len].contains(&b'\n') {
+                break len;
+            }
+            tokio::time::sleep(Duration::from_millis(10)).await;
+        };
         let mut headers = [];
         let mut req = httparse::Request::new(&mut headers);
         match (req.parse(&buf[..len]), req.path, req.method) {
